@@ -432,6 +432,23 @@ func c11Case(r *evid.Run, tier string, idx int, g *rng.R) {
 			r.Sig("unbound|"+xast.String(e), true)
 		}
 	}
+	// the prefix xml is no exception: a query that does not bind it cannot use it
+	{
+		w2 := *w
+		w2.env = &refeval.Env{Doc: d, NS: env1.ns, Vars: w.env.Vars}
+		w2.opts = nsOpts(env1.ns)
+		for _, e := range []xast.Expr{
+			xast.Abs(xast.DS(), xast.Step{Axis: "attribute", Test: xast.NameT("xml", "lang"), Abbrev: true}),
+			xast.Abs(xast.DS(), xast.S("child", xast.Test{Kind: xast.TNSAny, Prefix: "xml"})),
+			xast.Var{Prefix: "xml", Local: "v"}, xast.Call{Prefix: "xml", Local: "f"},
+			xast.Fn("count", xast.Abs(xast.DS(), xast.S("child", xast.AnyT(), xast.Rel(xast.Step{Axis: "attribute", Test: xast.NameT("xml", "lang"), Abbrev: true})))),
+		} {
+			extra := append(append([]xsel.ContextApply{}, vbinds...), xsel.WithVariableNS(adoc.XMLNS, "v", xsel.String("x")), xsel.WithFunctionNS(adoc.XMLNS, "f", func(xsel.Context, ...xsel.Result) (xsel.Result, error) { return xsel.String("f"), nil }))
+			if _, ok := w2.check(r, "unbound/xml-prefix", idx, d.Root, e, false, extra...); ok {
+				r.Sig("unbound-xml|"+xast.String(e), true)
+			}
+		}
+	}
 	// (e) re-serialisation with different prefixes (R-xml)
 	c11Reserialise(r, idx, g, d, env1, gen)
 }
